@@ -10,7 +10,7 @@ ID = 'C15'
 RULE = ('resolve: 7 weekday TIMEXes x every reference day of a mid-year and a New-Year window in 3 years; 7 units x 8 amounts; year '
         'and month TIMEXes for 12 months x 5 years, XXXX-MM x reference years; well-formedness of every entry for every date/week/'
         'season/time form. evaluate: every candidate set of size 1-2 from a pool of 9 (weekdays, month-days incl. 29 Feb, times, '
-        'weekday+time) x every constraint set of size 1-2 (thorough 1-3) from 8 date ranges (month, December, straddling a year end, '
+        'weekday+time) x every constraint set of size 1-3 (three only with a single candidate in the quick tier) from 8 date ranges (month, December, straddling a year end, '
         'leap February, overlapping pairs, whole year) and 3 time ranges. Oracle: brute force over every day of the window. '
         'Non-trivial = a non-empty, fully checked result; distinct = distinct (call, arguments).')
 ASSUMPTIONS = ['"immediately before and after the reference date" = the nearest such weekday strictly before and strictly after it',
@@ -182,15 +182,22 @@ def body(ch):
     else:
         ncand = ch.pick('n_candidates', (1, 2))
         cands = list(ch.pick('candidates', list(itertools.combinations(CAND_POOL, ncand))))
-        nd = ch.pick('n_date_constraints', tuple(range(1, CFG['max_cons'] + 1)))
+        # quick tier: three date constraints only with a single candidate
+        nd = ch.pick('n_date_constraints', (1, 2, 3) if (ncand == 1 or CFG['tier'] == 'thorough') else (1, 2))
         dcons = list(ch.pick('date_constraints', list(itertools.combinations(DATE_CONS, nd))))
         tcons = list(ch.pick('time_constraints', [()] + [(t,) for t in TIME_CONS] + [tuple(TIME_CONS[:2])]))
         cons = dcons + tcons
         key = 'evaluate|%s' % '+'.join(sorted({'weekday' if 'WXX' in c and 'T' not in c else 'weekday+time' if 'WXX' in c else
                                                 'time' if c.startswith('T') else 'feb-29' if c == 'XXXX-02-29' else 'month-day' for c in cands}))
+        from vmc.explore import LeafTimeout, time_limit
         try:
-            res = T['evaluate'](cands, cons)
+            with time_limit(3):
+                res = T['evaluate'](cands, cons)
             out = [r.timex_value() for r in res]
+        except LeafTimeout:
+            fail(ch, '%s|no-termination|%d-date-constraints' % (key, len(dcons)), candidates=cands, constraints=cons,
+                 error='evaluate() did not return within 3 s')
+            return
         except Exception as e:
             fail(ch, '%s|exception|%s|%s' % (key, type(e).__name__, 'december-constraint' if '2017-12' in dcons else 'other'),
                  candidates=cands, constraints=cons, error=repr(e))
